@@ -12,93 +12,49 @@ import (
 	lradius "layeh.com/radius"
 )
 
-// radex - <history>: one real radiusConn.exchange against a loopback endpoint that plays the server's address.  For the
-// Access-Request it receives it sends the datagrams of <history> in order (one byte per datagram):
-//
-//	0 forged 20-byte reply, same identifier, zero authenticator      1 the same for another identifier
-//	2 garbage that radius.Parse rejects                                3 well-formed reply signed with another secret
-//	4 stale reply (authentic for a different Request Authenticator)    5 the genuine reply cut short
-//	6 one forged datagram for every identifier (spray)                 9 the genuine, correctly authenticated Access-Accept
-//
-// Observable: did exchange() return the genuine Access-Accept with the Reply-Message it was built with.
-func c07RadiusExchange(history []byte) string {
-	secret := []byte("s3cr3t")
+var c07ExchangeTimeouts int
+
+// radex - <request authenticator> {<datagram> <d_resp> <d_ma>}...: one real radiusConn.exchange (first identifier of a fresh
+// connection = 1, Request Authenticator taken from the case) against a loopback endpoint that plays the server's address: on
+// receiving the Access-Request it sends the datagrams of the case, in order, with no pauses.  The generator ends every history
+// with an authentic "sentinel" reply, so exchange() returns as soon as the first authentic reply is processed — there is no
+// waiting on HEAD; the 3 s exchange timeout is reached only when no reply at all gets through (a finding).  Observable:
+// number of replies delivered to the requester (0 or 1) and the Reply-Message of the delivered one.
+func c07RadiusExchange(f []string) string {
+	if c07ExchangeTimeouts >= 3 {
+		return "skipped-after-3-timeouts"
+	}
+	secret := []byte("secret")
 	srv, err := net.ListenUDP("udp4", &net.UDPAddr{IP: net.IPv4(127, 0, 0, 1)})
 	if err != nil {
 		return "ok NOSOCKET"
 	}
 	defer srv.Close()
-	forged := func(id byte) []byte {
-		d := make([]byte, 20)
-		d[0], d[1], d[3] = byte(lradius.CodeAccessReject), id, 20
-		return d
+	var history [][]byte
+	for k := 1; k < len(f); k += 3 {
+		history = append(history, c07Arg(f, k))
 	}
 	go func() {
 		buf := make([]byte, 4096)
-		n, src, err := srv.ReadFromUDP(buf)
+		_, src, err := srv.ReadFromUDP(buf)
 		if err != nil {
 			return
 		}
-		req := append([]byte(nil), buf[:n]...)
-		genuine := func(sec []byte, reqRaw []byte) []byte {
-			p, err := lradius.Parse(reqRaw, sec)
-			if err != nil {
-				return nil
-			}
-			resp := p.Response(lradius.CodeAccessAccept)
-			resp.Add(18, lradius.Attribute("welcome"))
-			raw, _ := resp.Encode()
-			return raw
-		}
-		for _, k := range history {
-			var d []byte
-			switch k {
-			case 0:
-				d = forged(req[1])
-			case 1:
-				d = forged(req[1] + 1)
-			case 2:
-				d = []byte{0xff, req[1], 0x00, 0x02, 0x01}
-			case 3:
-				d = genuine([]byte("other"), req)
-			case 4:
-				stale := append([]byte(nil), req...)
-				for i := 4; i < 20; i++ {
-					stale[i] ^= 0x5a
-				}
-				d = genuine(secret, stale)
-			case 5:
-				if g := genuine(secret, req); len(g) > 3 {
-					d = g[:len(g)-3]
-				}
-			case 6:
-				for id := 0; id < 256; id++ {
-					_, _ = srv.WriteToUDP(forged(byte(id)), src)
-					if id%32 == 31 { // stay below the receiver's socket buffer: the kernel must not drop the genuine reply
-						time.Sleep(3 * time.Millisecond)
-					}
-				}
-				time.Sleep(10 * time.Millisecond)
-			case 9:
-				d = genuine(secret, req)
-			}
-			if d != nil {
-				_, _ = srv.WriteToUDP(d, src)
-			}
+		for _, d := range history {
+			_, _ = srv.WriteToUDP(d, src)
 		}
 	}()
-	rc := newRadiusConn("127.0.0.1", srv.LocalAddr().(*net.UDPAddr).Port, secret, 400*time.Millisecond, netbind.Binding{})
+	rc := newRadiusConn("127.0.0.1", srv.LocalAddr().(*net.UDPAddr).Port, secret, 3*time.Second, netbind.Binding{})
 	defer rc.close()
 	req := lradius.New(lradius.CodeAccessRequest, secret)
+	copy(req.Authenticator[:], c07Arg(f, 0))
 	req.Add(1, lradius.Attribute("alice"))
 	resp, err := rc.exchange(req)
 	if err != nil || resp == nil {
+		c07ExchangeTimeouts++
 		return "ok 0"
 	}
-	if resp.Code != lradius.CodeAccessAccept || string(resp.Get(18)) != "welcome" {
-		return "ok WRONGREPLY"
-	}
-	return "ok 1"
+	return c07Ok("1", c07TBN(resp.Get(18)))
 }
 
 func c07Radius(entry string, n []uint64, f []string) string {
@@ -121,7 +77,13 @@ func c07Radius(entry string, n []uint64, f []string) string {
 		}
 		return c07Ok(c07U(uint64(off)), c07TB(w))
 	case "radex":
-		return c07RadiusExchange(data)
+		return c07RadiusExchange(f)
+	case "radparse": // radparse - <datagram>: does the third-party parser accept it, and with which declared length
+		p, err := lradius.Parse(data, []byte("secret"))
+		if err != nil || p == nil {
+			return "ok 0 0"
+		}
+		return c07Ok("1", c07U(uint64(data[2])<<8|uint64(data[3])))
 	case "radreply": // radreply - <raw> <d_resp> <d_ma> <reqAuth>
 		return c07Ok(c07Bool(isAuthenticReply(data, c07Arg(f, 3), []byte("secret"))))
 	case "radreqauth": // radreqauth - <raw> <digest>
